@@ -69,13 +69,14 @@ FMT_REDIRECTS = [
 ]
 SORT_ASSUMPTION = "std slice::sort / sort_by are replaced by their contract (stable sorted permutation; insertion sort in kani/vsup.rs) in harnesses carrying `kani::stub(<[T]>::sort, stub_sort)`: std's driftsort does not leave CBMC's symbolic execution even for one-element slices (measured)"
 TEXT_REDIRECTS = [
-    ("src/encoder/text.rs", "&value.to_string()", "&crate::__vsup::f64_token(value)"),
-    ("src/encoder/text.rs", "&timestamp.to_string()", "&crate::__vsup::i64_token(timestamp)"),
-    ("src/encoder/text.rs", "&upper_bound.to_string()", "&crate::__vsup::f64_token(upper_bound)"),
-    ("src/encoder/text.rs", "&q.quantile().to_string()", "&crate::__vsup::f64_token(q.quantile())"),
     ("src/encoder/text.rs", 'format!("{:?}", metric_type).to_lowercase()', "crate::__vsup::type_name_lower(metric_type)"),
 ]
-TEXT_ASSUMPTION = "std number formatting is replaced by opaque injective tokens at its 4 call sites in encoder/text.rs (f64::to_string x3, i64::to_string) and `format!(\"{:?}\", metric_type).to_lowercase()` by the table counter/gauge/summary/untyped/histogram (exact-text rewrite in the scratch copy): that std's shortest round-trip Display/FromStr of f64 is faithful (finite values bit-exact, inf/NaN preserved) and that derive(Debug) prints the variant name are ASSUMED; a full parser round trip is not run inside the verifier"
+# every `&<simple expr>.to_string()` in encoder/text.rs formats an f64 or i64 sample value, bound,
+# quantile or timestamp: replaced by the opaque token function (type-directed through a trait)
+TEXT_REGEX_REDIRECTS = [
+    ("src/encoder/text.rs", r"&([A-Za-z_][A-Za-z0-9_]*(?:\.[A-Za-z_][A-Za-z0-9_]*\(\))*)\.to_string\(\)", r"&crate::__vsup::num_token(\1)", 2),
+]
+TEXT_ASSUMPTION = "std number formatting is replaced by opaque injective tokens at every `&<expr>.to_string()` call site in encoder/text.rs (f64::to_string x3, i64::to_string; regex rewrite) and `format!(\"{:?}\", metric_type).to_lowercase()` by the table counter/gauge/summary/untyped/histogram (exact-text rewrite in the scratch copy): that std's shortest round-trip Display/FromStr of f64 is faithful (finite values bit-exact, inf/NaN preserved) and that derive(Debug) prints the variant name are ASSUMED; a full parser round trip is not run inside the verifier"
 FMT_ASSUMPTION = "std format! is replaced by its contract at the 5 call sites whose result is used functionally (desc.rs `format!(\"${}\", label_name)` -> \"$\" ++ name; metrics.rs build_fq_name's three joins and registry.rs gather's prefix join -> a ++ \"_\" ++ b) by exact-text rewrite in the scratch copy; every other format! builds an error message and is stubbed to the empty string. Reason: std::fmt::write does not terminate under CBMC even on concrete arguments (measured > 5 min)"
 MAPS_ASSUMPTION = "std HashMap/HashSet/BTreeMap/BTreeSet are replaced by the contract shim /verif/kani/vcoll.rs (functional map with key equality; HashMap iteration order is a nondeterministic permutation at every iteration = every hash seed; BTree* iterate in key order) through a mechanical rewrite of the `use std::collections::...` lines of counter.rs, desc.rs, histogram.rs, metrics.rs, vec.rs, registry.rs, pulling_gauge.rs in the scratch copy; the std implementations themselves are assumed to meet that contract"
 
@@ -266,6 +267,7 @@ def inject_spec(pid: str, features: str = "plain"):
         spec["replacements"] = list(FMT_REDIRECTS)
     if p.get("text"):
         spec["replacements"] = spec.get("replacements", []) + list(TEXT_REDIRECTS)
+        spec["regex_replacements"] = list(TEXT_REGEX_REDIRECTS)
     spec["contracts"] = list(p.get("contracts", []))
     for cs in p.get("contract_sets", []):
         spec["contracts"] += CONTRACTS[cs]
@@ -273,6 +275,7 @@ def inject_spec(pid: str, features: str = "plain"):
     return spec
 
 NOT_APPLICABLE = {
+    "C20": "every macro arm expands to construction of a real std::collections::HashMap (named inside the macro body, so the collections shim cannot be substituted without rewriting the macros), Opts -> Desc::new, and registration in the lazy-static default registry; the relational contract 'arm == explicit call' composes the two slowest functions measured here (Desc::new, register) on real hashbrown (170 s per symbolic map operation under CBMC), and Verus cannot take macro-generated code; not attempted beyond that estimate (DESIGN.md section 5 C20)",
     "C13": "ProtobufEncoder::encode delegates to the protobuf crate's write_length_delimited_to_writer over the generated proto/proto_model.rs; executing that runtime under Kani/CBMC on the smallest concrete family (name, type, one empty metric; kani/pb_c13.rs, kept but not registered) ran into the 15-minute limit for both harnesses (measured), the method cannot be stubbed per receiver type, and neither Verus nor Kani can take generated code plus a third-party runtime under contract; the only part within reach, check_metric_family's refusal of nameless/empty families, is discharged under C17 (text encoder harness c17_encode_every_metric_type_no_panic).",
     "C07": "RegistryCore::gather does not finish under CBMC: with the collections shim, sort_by and format! replaced by their contracts, a registry holding ONE collector with ONE sample (c07_common_labels_order0) and two-collector scenarios each ran into the 60-minute limit (measured twice; moves of the ~200-byte Metric/MetricFamily structs through vectors and the string-keyed BTreeMap dominate). No contract on gather() can therefore be discharged here; the harness text is kept in kani/registry_c07.rs but is not registered. Verus cannot take the function (BTreeMap entry API, iterator adapters, closures).",
     "C14": "same function as C07 (RegistryCore::gather merges families by name without looking at the type): out of CBMC's reach (measured, 60-minute limit). Reading the code shows the defect the property describes (a counter and a gauge sharing name and help are merged into one family whose declared type is that of the first collector iterated), but no check of this framework decides it, so it is neither claimed nor listed as a known finding; see DESIGN.md.",
